@@ -206,6 +206,117 @@ Theorem vsplit_sum : forall res Lmax L, 0 < res -> 0 < Lmax ->
   qn (nsplit Lmax res) * (L / qn (nsplit Lmax res)) == L.
 Proof. intros. apply div_mul_cancel, qn_pos, nsplit_pos; assumption. Qed.
 
+(** ---------- finding F29 repaired: [split_fixed] (correctors return [self] when num_splits < 1) *)
+
+(* the angles of the pieces add up to the angle for EVERY length (zero and even negative ones) and every resolution:
+   no hypothesis is left *)
+Theorem corrector_split_angle_fixed : forall res L a,
+  sum_angle (split_fixed res (SHCor L a)) == a /\ sum_angle (split_fixed res (SVCor L a)) == a.
+Proof.
+  intros res L a. cbn [split_fixed]. destruct (nsplit L res) as [|k].
+  - unfold sum_angle. cbn [fold_right sangle]. split; ring.
+  - rewrite !sum_angle_repeat. cbn [sangle]. split; apply div_mul_cancel, qn_pos; lia.
+Qed.
+
+(* a corrector never splits into nothing *)
+Theorem split_nonempty_fixed : forall res L a,
+  split_fixed res (SHCor L a) <> [] /\ split_fixed res (SVCor L a) <> [].
+Proof.
+  intros res L a. cbn [split_fixed]. destruct (nsplit L res) as [|k]; cbn [repeat]; split; discriminate.
+Qed.
+
+(* the thin corrector is kept as it is: one piece, length 0, the whole angle *)
+Theorem thin_corrector_split_fixed : forall res a,
+  split_fixed res (SHCor 0 a) = [SHCor 0 a] /\ split_fixed res (SVCor 0 a) = [SVCor 0 a].
+Proof.
+  intros res a. assert (Hn : nsplit 0 res = 0%nat) by (apply nsplit_zero; reflexivity).
+  cbn [split_fixed]. rewrite Hn. split; reflexivity.
+Qed.
+
+(* wherever every corrector has a length the repaired split is the old one: all theorems about [split] carry over there *)
+Theorem split_fixed_eq_split : forall res e, 0 < res -> cor_pos e -> split_fixed res e = split res e.
+Proof.
+  intros res e Hr. induction e as [L m|L k1 mx my t s m|L a|L a|c L|es IH] using sel_ind'; intros Hc; try reflexivity.
+  1-2: cbn [cor_pos] in Hc; cbn [split_fixed split]; pose proof (nsplit_pos L res Hr Hc) as Hp;
+       destruct (nsplit L res); [lia|reflexivity].
+  cbn [split_fixed split]. induction es as [|x r IHr]; [reflexivity|].
+  inversion IH as [|? ? Hx Hrr]; subst. cbn in Hc. destruct Hc as [Hcx Hcr].
+  cbn [flat_map]. rewrite (Hx Hcx), (IHr Hrr Hcr). reflexivity.
+Qed.
+
+(** lengths still add up, for every element and nesting -- now including thin correctors, which are kept *)
+Theorem split_fixed_sum : forall res e, 0 < res -> nonneg e -> sum_len (split_fixed res e) == slen e.
+Proof.
+  intros res e Hr. induction e as [L m|L k1 mx my t s m|L a|L a|c L|es IH] using sel_ind'; intros Hn.
+  - apply (leaf_sum res L (fun x => SDrift x m)); auto.
+  - apply (leaf_sum res L (fun x => SQuad x k1 mx my t s m)); auto.
+  - cbn [split_fixed]. destruct (nsplit L res) eqn:E; [cbn; ring|]. rewrite <- E.
+    apply (leaf_sum res L (fun x => SHCor x (a / qn (nsplit L res)))); auto.
+  - cbn [split_fixed]. destruct (nsplit L res) eqn:E; [cbn; ring|]. rewrite <- E.
+    apply (leaf_sum res L (fun x => SVCor x (a / qn (nsplit L res)))); auto.
+  - cbn. ring.
+  - cbn [split_fixed slen]. induction es as [|x r IHr]; [reflexivity|].
+    inversion IH as [|? ? Hx Hrr]; subst. cbn in Hn. destruct Hn as [Hnx Hnr].
+    cbn [flat_map fold_right]. rewrite sum_len_app, (Hx Hnx), (IHr Hrr Hnr). reflexivity.
+Qed.
+
+(** and no piece of a splittable element is longer than the resolution (the kept thin corrector has length 0) *)
+Theorem split_fixed_bound : forall res e, 0 < res -> nonneg e ->
+  Forall (fun p => splittable p = true -> slen p <= res) (split_fixed res e).
+Proof.
+  intros res e Hr. induction e as [L m|L k1 mx my t s m|L a|L a|c L|es IH] using sel_ind'; intros Hn.
+  1-2: cbn [split_fixed]; cbn [nonneg slen] in Hn; (destruct (Qlt_le_dec 0 L) as [Hpos|Hz];
+         [apply Forall_forall; intros p Hp; apply repeat_spec in Hp; subst p; intros _; cbn [slen];
+          apply piece_bound; assumption
+         |assert (Hz' : L == 0) by lra; rewrite (nsplit_zero L res Hz'); constructor]).
+  1-2: cbn [split_fixed]; cbn [nonneg slen] in Hn; (destruct (Qlt_le_dec 0 L) as [Hpos|Hz];
+         [pose proof (nsplit_pos L res Hr Hpos) as Hp; pose proof (piece_bound L res Hr Hpos) as Hb;
+          destruct (nsplit L res) eqn:E; [lia|];
+          apply Forall_forall; intros p Hp'; apply repeat_spec in Hp'; subst p; intros _; cbn [slen]; exact Hb
+         |assert (Hz' : L == 0) by lra; rewrite (nsplit_zero L res Hz');
+          constructor; [intros _; cbn [slen]; lra|constructor]]).
+  - cbn. constructor; [discriminate|constructor].
+  - cbn [split_fixed]. induction es as [|x r IHr]; [constructor|].
+    inversion IH as [|? ? Hx Hrr]; subst. cbn in Hn. destruct Hn as [Hnx Hnr].
+    cbn [flat_map]. apply Forall_app. split; [apply Hx, Hnx|apply IHr; assumption].
+Qed.
+
+Theorem segment_split_fixed_concat : forall res es1 es2,
+  split_fixed res (SSeg (es1 ++ es2)) = split_fixed res (SSeg es1) ++ split_fixed res (SSeg es2).
+Proof. intros. cbn [split_fixed]. apply flat_map_app. Qed.
+
+Theorem segment_split_fixed_cons : forall res e es,
+  split_fixed res (SSeg (e :: es)) = split_fixed res e ++ split_fixed res (SSeg es).
+Proof. reflexivity. Qed.
+
+Lemma sum_angle_app a b : sum_angle (a ++ b) == sum_angle a + sum_angle b.
+Proof.
+  induction a as [|x r IH]; unfold sum_angle in *; cbn [List.app fold_right]; [ring|]. rewrite IH. ring.
+Qed.
+
+(** Segment.split (repaired correctors) never loses a kick: for every element, every nesting of segments, every
+    resolution and all lengths, the angles of all pieces add up to the total angle set on the correctors *)
+Theorem split_fixed_total_angle : forall res e, sum_angle (split_fixed res e) == tot_angle e.
+Proof.
+  intros res e. induction e as [L m|L k1 mx my t s m|L a|L a|c L|es IH] using sel_ind'.
+  - cbn [split_fixed tot_angle]. rewrite sum_angle_repeat. cbn [sangle]. ring.
+  - cbn [split_fixed tot_angle]. rewrite sum_angle_repeat. cbn [sangle]. ring.
+  - apply (corrector_split_angle_fixed res L a).
+  - apply (corrector_split_angle_fixed res L a).
+  - cbn. ring.
+  - cbn [split_fixed tot_angle]. induction es as [|x r IHr]; [reflexivity|].
+    inversion IH as [|? ? Hx Hrr]; subst. cbn [flat_map fold_right]. rewrite sum_angle_app, Hx, (IHr Hrr). reflexivity.
+Qed.
+
+(* ... which the code before the repair does not achieve: a segment with a thin corrector loses that corrector's angle *)
+Theorem split_total_angle_refuted : forall res m a, 0 < res -> ~ a == 0 ->
+  ~ sum_angle (split res (SSeg [SDrift 1 m; SHCor 0 a])) == tot_angle (SSeg [SDrift 1 m; SHCor 0 a]).
+Proof.
+  intros res m a Hr Ha. assert (Hn : nsplit 0 res = 0%nat) by (apply nsplit_zero; reflexivity).
+  cbn [split flat_map tot_angle fold_right sangle]. rewrite Hn. cbn [repeat]. rewrite !app_nil_r.
+  rewrite sum_angle_repeat. cbn [sangle]. intros H. apply Ha. lra.
+Qed.
+
 (** ---------- tracking through the pieces, over R: the pieces' maps multiply to the whole map.
     Drift and Quadrupole maps are those of Optics/Maps.v (transcribed from the code). *)
 From Coq Require Import Reals Lra.
